@@ -25,6 +25,7 @@ import (
 	"github.com/attestantio/vouch/util"
 	"github.com/rs/zerolog"
 	"github.com/shopspring/decimal"
+	"verif/checks/relaycommon"
 	"verif/harness"
 )
 
@@ -50,6 +51,7 @@ type builderCfg struct {
 
 type acase struct {
 	Strategy string             `json:"strategy"`
+	Via      string             `json:"via,omitempty"` // "blockrelay": through the real block relay service
 	Relays   []relaySpec        `json:"relays"`
 	Builders map[int]builderCfg `json:"builder_configs"`
 }
@@ -154,21 +156,20 @@ type strategySvc interface {
 		builderConfigs map[phase0.BLSPubKey]*blockrelay.BuilderConfig) (*blockauctioneer.Results, error)
 }
 
-func runCase(c *harness.Ctx, id string, ac *acase, uniq int) {
-	ctx := context.Background()
-	parent := phase0.Hash32{7, 7, 7}
-	now := time.Now()
-	// chain time: the slot starts 100 ms from now (deadline strategy measures from the slot start)
-	clock := harness.NewVClock(12*time.Second, 32)
-	slotStart := now.Add(100 * time.Millisecond).Truncate(time.Second)
-	if ac.Strategy == "deadline" {
-		// the slot start must be a whole second (bid timestamps are in seconds); place it just behind us
-		slotStart = now.Truncate(time.Second)
-	}
-	clock.Genesis = slotStart.Add(-time.Duration(theSlot) * 12 * time.Second)
-	deadlineAfterSlot := now.Add(timeout).Sub(slotStart) // absolute deadline = now + timeout
+// viaRelay runs the auction through the real block relay service: the proposer settings come from its execution
+// configuration document, the builder configurations from its parameters, and the strategy is the one it was given.
+type viaRelay struct {
+	env  *relaycommon.Env
+	acct harness.Acct
+}
 
-	cfgs := map[phase0.BLSPubKey]*blockrelay.BuilderConfig{}
+func (v viaRelay) BuilderBid(ctx context.Context, slot phase0.Slot, parentHash phase0.Hash32, _ phase0.BLSPubKey, _ *beaconblockproposer.ProposerConfig,
+	_ map[phase0.BLSPubKey]*blockrelay.BuilderConfig) (*blockauctioneer.Results, error) {
+	return v.env.Svc.AuctionBlock(ctx, slot, parentHash, v.acct.Pub48())
+}
+
+func builderConfigsOf(ac *acase) map[phase0.BLSPubKey]*blockrelay.BuilderConfig {
+	out := map[phase0.BLSPubKey]*blockrelay.BuilderConfig{}
 	for b, bc := range ac.Builders {
 		cfg := &blockrelay.BuilderConfig{Category: "priority"}
 		if bc.Factor != nil {
@@ -177,12 +178,66 @@ func runCase(c *harness.Ctx, id string, ac *acase, uniq int) {
 		if bc.Offset != nil {
 			cfg.Offset = big.NewInt(*bc.Offset)
 		}
-		cfgs[harness.BuilderPub(b)] = cfg
+		out[harness.BuilderPub(b)] = cfg
 	}
+	return out
+}
+
+func relayAddr(c *harness.Ctx, uniq, i int) string {
+	return fmt.Sprintf("http://relay%d-%d-%d.example.com/", c.Batch, uniq, i)
+}
+
+func runCase(c *harness.Ctx, id string, ac *acase, uniq int) {
+	ctx := context.Background()
+	parent := phase0.Hash32{7, 7, 7}
+	clock := harness.NewVClock(12*time.Second, 32)
+	specP := harness.NewSpec(32, nil)
+	var via *viaRelay
+	if ac.Via == "blockrelay" {
+		// everything that takes time is done before the time base is fixed
+		inner, err := bidbest.New(ctx, bidbest.WithLogLevel(zerolog.Disabled), bidbest.WithMonitor(nullmetrics.New()), bidbest.WithSpecProvider(specP), bidbest.WithDomainProvider(harness.RecDomains{}),
+			bidbest.WithChainTime(clock), bidbest.WithTimeout(timeout), bidbest.WithReleaseVersion("verif"))
+		if err != nil {
+			c.Inconclusive("cannot build strategy: " + err.Error())
+			return
+		}
+		acct := harness.NewAcct(harness.KindPlain, "W", "c09", 1500+uniq%4, phase0.ValidatorIndex(7000+uniq%4), nil)
+		env, err := relaycommon.NewEnvWith([]harness.Acct{acct}, 0, relaycommon.Outcome{Kind: "error"}, &relaycommon.Bidder{Inner: inner}, builderConfigsOf(ac))
+		if err != nil {
+			c.Inconclusive("cannot build block relay: " + err.Error())
+			return
+		}
+		var parts []string
+		for i, rs := range ac.Relays {
+			f := fmt.Sprintf(`"min_value":"0.%018d"`, rs.MinValue)
+			if rs.KeyKnown == "config" {
+				f += fmt.Sprintf(`,"public_key":"%#x"`, harness.RelayPub(i))
+			}
+			parts = append(parts, fmt.Sprintf("%q:{%s}", relayAddr(c, uniq, i), f))
+		}
+		doc := fmt.Sprintf(`{"version":2,"fee_recipient":"0x0909090000000000000000000000000000000000","relays":{%s}}`, strings.Join(parts, ","))
+		env.Config.Set(relaycommon.Outcome{Kind: "valid", Doc: doc})
+		if !env.Refresh() {
+			c.Inconclusive("configuration fetch job missing")
+			return
+		}
+		via = &viaRelay{env, acct}
+	}
+	now := time.Now()
+	// chain time: the slot starts 100 ms from now (deadline strategy measures from the slot start)
+	slotStart := now.Add(100 * time.Millisecond).Truncate(time.Second)
+	if ac.Strategy == "deadline" {
+		// the slot start must be a whole second (bid timestamps are in seconds); place it just behind us
+		slotStart = now.Truncate(time.Second)
+	}
+	clock.Genesis = slotStart.Add(-time.Duration(theSlot) * 12 * time.Second)
+	deadlineAfterSlot := now.Add(timeout).Sub(slotStart) // absolute deadline = now + timeout
+
+	cfgs := builderConfigsOf(ac)
 	pc := &beaconblockproposer.ProposerConfig{FeeRecipient: bellatrix.ExecutionAddress{9, 9, 9}}
 	relays := make([]*harness.Relay, len(ac.Relays))
 	for i, rs := range ac.Relays {
-		rl := &harness.Relay{Addr: fmt.Sprintf("http://relay%d-%d-%d.example.com/", c.Batch, uniq, i), KeyNo: i, HasPubkey: rs.KeyKnown == "provider", Start: now,
+		rl := &harness.Relay{Addr: relayAddr(c, uniq, i), KeyNo: i, HasPubkey: rs.KeyKnown == "provider", Start: now,
 			SlotTS: uint64(slotStart.Unix()), Parent: parent}
 		switch rs.Lat {
 		case "fast":
@@ -220,8 +275,9 @@ func runCase(c *harness.Ctx, id string, ac *acase, uniq int) {
 	}
 	var svc strategySvc
 	var err error
-	specP := harness.NewSpec(32, nil)
-	if ac.Strategy == "best" {
+	if via != nil {
+		svc = via
+	} else if ac.Strategy == "best" {
 		svc, err = bidbest.New(ctx, bidbest.WithLogLevel(zerolog.Disabled), bidbest.WithMonitor(nullmetrics.New()), bidbest.WithSpecProvider(specP), bidbest.WithDomainProvider(harness.RecDomains{}),
 			bidbest.WithChainTime(clock), bidbest.WithTimeout(timeout), bidbest.WithReleaseVersion("verif"))
 	} else {
@@ -284,6 +340,25 @@ func runCase(c *harness.Ctx, id string, ac *acase, uniq int) {
 		fail("auction-late", fmt.Sprintf("auction returned after %v (deadline %v)", took, timeout))
 	}
 	res := o.res
+	if via != nil {
+		// what the block relay then serves to a beacon node asking for the bid of this slot, parent and proposer
+		served, serr := via.env.Svc.BuilderBid(ctx, theSlot, parent, via.acct.Pub48())
+		c.Count("bids_served_by_block_relay", 1)
+		switch {
+		case res.WinningParticipation == nil && served != nil:
+			fail("served-bid-without-winner", "the auction had no winner but the block relay serves a bid to the beacon node (the local payload would not be used)")
+		case res.WinningParticipation != nil && (served == nil || serr != nil):
+			fail("winner-not-served", fmt.Sprintf("the auction has a winner but the block relay serves no bid to the beacon node (err %v)", serr))
+		case res.WinningParticipation != nil:
+			sh, _ := served.BlockHash()
+			sv, _ := served.Value()
+			wh, _ := res.WinningParticipation.Bid.BlockHash()
+			wv, _ := res.WinningParticipation.Bid.Value()
+			if sh != wh || sv.Cmp(wv) != 0 {
+				fail("served-bid-is-not-the-winner", fmt.Sprintf("the block relay serves bid %x/%s, the auction's winner is %x/%s", sh[:3], sv, wh[:3], wv))
+			}
+		}
+	}
 	// eligible offers that clearly arrived / may have arrived before the deadline
 	var defBest, genBest *big.Int
 	for _, of := range offers {
@@ -407,6 +482,9 @@ func run(c *harness.Ctx) {
 		c.Case(id, func() {
 			r := c.Rand("case", i)
 			ac := genCase(r, strategy)
+			if strategy == "best" && i%10 == 4 {
+				ac.Via = "blockrelay"
+			}
 			wg.Add(1)
 			sem <- struct{}{}
 			go func() {
@@ -447,7 +525,7 @@ func main() {
 	harness.Main(&harness.Spec{
 		Property:     "C09",
 		Level:        "exploration",
-		Rule:         "auctions over 1-6 scripted relays: bids with values 1000-12000, 4 builders with random {factor 0 (excluded) / factor / offset / both / none} configs, shared payload headers, relay minimum values, zero fee recipient, wrong timestamp, bad signature (relay key known from config, from the provider, or unknown), empty and nil bids, latencies fast / 600 ms / 1080 ms / silent / error against a 0.8 s deadline; deadline strategy polled every 100 ms with bids that change at 350 ms (improving or worsening); bids signed with real BLS keys. distinct = (strategy, multiset of relay (latency, eligibility, second bid) classes, configured builders); non-trivial = >=2 relays and >=1 eligible bid",
+		Rule:         "auctions over 1-6 scripted relays: bids with values 1000-12000, 4 builders with random {factor 0 (excluded) / factor / offset / both / none} configs, shared payload headers, relay minimum values, zero fee recipient, wrong timestamp, bad signature (relay key known from config, from the provider, or unknown), empty and nil bids, latencies fast / 600 ms / 1080 ms / silent / error against a 0.8 s deadline; deadline strategy polled every 100 ms with bids that change at 350 ms (improving or worsening); bids signed with real BLS keys; one best-strategy auction in ten goes through the real block relay service (settings from its configuration document) and the bid it then serves is compared with the winner. distinct = (strategy, multiset of relay (latency, eligibility, second bid) classes, configured builders); non-trivial = >=2 relays and >=1 eligible bid",
 		Batches:      func(string) int { return 2 },
 		Parallel:     2,
 		Run:          run,
